@@ -21,6 +21,7 @@ type Val struct {
 	Fn     *ast.FuncLit    // function literal value
 	FnObj  *types.Func     // named function value
 	Recv   *Val            // bound receiver for method values
+	Ext    bool            // function value produced by external code (calling it cannot touch repo state)
 }
 
 type Deferred struct {
@@ -375,6 +376,7 @@ type FnCtx struct {
 	iterCount     *Val
 	arbDepth      int
 	named         map[string]string
+	escaped       map[string]bool
 	inlining      map[string]int
 	gotoTargets   map[string]bool
 	gotoActive    map[string]bool
